@@ -78,6 +78,44 @@ CHECKS = {
          "the library's and not generated.",
     technique="Coq proof (byte-level case analysis + int64 range arithmetic) + extracted-model differential correspondence",
     design="5/C19"),
+ "C01": dict(
+    text="Proof: scrub_clean/no_esc/idempotent (all texts); render_safe + render_good (HTML/Markdown: for EVERY parsed tree, all "
+         "widths in Z, the rendering is a well-formed styled text with printable letters, so the terminal machine shows only "
+         "printable runes and newlines); gem_render_safe, plain_render_safe (all scrubbed contents); problem_safe (ANY error text); "
+         "set_length_clean, status_line_safe; safe_wf. Tie: the real GetMarkup->Render path, style.Problem, Scrub, SetLength on "
+         "hostile inputs; the extracted terminal machine (safe_b) judges the implementation's own output.",
+    note="Parsers (x/net/html, goldmark) are library oracles: the theorem quantifies over every tree. Item strings (names, headers) "
+         "and UI frames compose these pieces; their composite correspondence is part of the item/UI checks. Colours must satisfy "
+         "colors_ok, which C19's colour_is_param proves for every accepted configuration.",
+    technique="Coq proof (structural induction over the parsed tree with a well-formed-styled-text invariant) + terminal-machine oracle on implementation output",
+    design="5/C01"),
+ "C12": dict(
+    text="Proof: render_node_labels (rendering ANY tree only appends targets and labels each with exactly its 1-based position), "
+         "render_labels, label_opens_target, inside_opens_labelled, outside_opens_nothing, labels_width_independent, and the "
+         "gemtext/plain-text analogues via instrumented renderers with erasure lemmas. Tie: Render+links equal the model; an "
+         "independent oracle parses the superscripts next to unique labels out of the implementation's rendering and checks the "
+         "link list, and that the numbers shown are exactly 1..N.",
+    note="ls_events is a ghost component of the model (erased in the observable result). Attachment numbering (post.supplement) and "
+         "SelectLink on items belong to the item check.",
+    technique="Coq proof (ghost label events + structural induction over the tree) + label-parsing oracle on implementation output",
+    design="5/C12"),
+ "C15": dict(
+    text="Proof: render_fits / gem_render_fits / plain_render_fits (every printed line re-scans to <= w cells for EVERY document and "
+         "w >= 1, from the final whole-output wrap), render_cache_pure (for any pure renderer and ANY sequence of widths the k-th "
+         "Render returns f wk; invariant cached = f cached_width, initial width 80), links width-independent. Tie: documents in the "
+         "four markups rendered at width SEQUENCES with repeats; outputs equal the model and the oracles fits_width / "
+         "history_independent hold of the implementation's output.",
+    note="Line length counts cells. Parsers are library oracles.",
+    technique="Coq proof (wrap_width lifted through trim + cache state-machine invariant) + differential correspondence over width histories",
+    design="5/C15"),
+ "C20": dict(
+    text="Proof: argv_spec (same length, argv[0] never substituted, every later argument replaced iff it EQUALS a placeholder, "
+         "stdin iff no %url), subst_spec, embedded_placeholder_untouched, link_verbatim, hook_total. Tie: the real "
+         "ui.openExternally launches a recorder program found through PATH (also under names that equal placeholders); recorded "
+         "argv and stdin must equal Hook.hook_command.",
+    note="exec/os are the platform's. The key-to-hook path (o, p, b, number+Enter, media type defaults) is covered by the UI/item checks.",
+    technique="Coq proof (list recursion over argv) + differential correspondence through real exec",
+    design="5/C20"),
 }
 PENDING_REASON = "check not built yet in this session (work in progress; planned in DESIGN.md section 5)"
 
